@@ -6,7 +6,7 @@
 (* decoder) are judged by the AbyStore formulas and compared with the design-layer           *)
 (* successor.  Every verdict comes from a NAMED property conjunct Cxx.<what> evaluated on     *)
 (* logged implementation data; a mere design mismatch is reported as SPEC-DRIFT.              *)
-EXTENDS Integers, Sequences, FiniteSets, TLC, SequencesExt, Json, IOUtils, AbyHash, AbyCodec, AbyScan
+EXTENDS Integers, Sequences, FiniteSets, TLC, SequencesExt, Json, IOUtils, AbyHash, AbyCodec, AbyScan, AbyFormat
 
 Rec == ndJsonDeserialize(IOEnv.TRACE)
 NRec == Len(Rec)
@@ -513,7 +513,10 @@ Proc(e) ==
                          IF (Len(e.native.fails) = 0) = ({x \in sf : x \notin {"C05.content", "C12.header", "C12.placement", "C07.n"}} = {})
                          THEN {} ELSE {"TOOL.native_disagrees"}
                       ELSE {}
-            IN [base EXCEPT !.fails = sf \cup stepf \cup bf \cup nf,
+                \* the raw bytes of a small image, decoded by the format module itself (AbyFormat): both
+                \* decoders must arrive at the same raw interpretation
+                ff == IF Has(e, "raw") THEN FmtDiff(e.st, FmtDecode(e.raw.htx, e.raw.key, e.raw.val, 1000000)) ELSE {}
+            IN [base EXCEPT !.fails = sf \cup stepf \cup bf \cup nf \cup ff,
                             !.drift = IF ~IsNone(pred) /\ pred # S THEN ToJson(DiffS(pred, S))
                                       ELSE IF m \in DOMAIN meta /\ meta[m].n # S.n THEN "stored bucket count differs from BucketsFromParam(creation parameter)"
                                       ELSE IF wf /\ FreeOKD(S, D) /\ ~PadOKD(S, D) THEN "bytes behind a record are not zero"
@@ -534,8 +537,13 @@ Proc(e) ==
             [base EXCEPT !.aux = [aux EXCEPT !.dg = Set(aux.dg, Fld(e, "tag", "-"), e.dg)]]
       [] e.ev = "note" /\ Has(e, "same") ->
             \* two recorded digests must be equal; the conjunct name is one of a fixed set
-            LET a == Get0(aux.dg, e.same[1], <<"?a">>)
-                b == Get0(aux.dg, e.same[2], <<"?b", "?">>)
+            \* ("only": the files - 1 htx, 2 key, 3 val - the statement speaks about; a file that was absent
+            \*  or empty before a refused open is outside C13's quantifier and may be created)
+            LET a0 == Get0(aux.dg, e.same[1], <<"?a">>)
+                b0 == Get0(aux.dg, e.same[2], <<"?b", "?">>)
+                sel == IF Has(e, "only") THEN {e.only[j] : j \in DOMAIN e.only} ELSE {}
+                a == IF sel = {} THEN a0 ELSE [j \in sel \cap DOMAIN a0 |-> a0[j]]
+                b == IF sel = {} THEN b0 ELSE [j \in sel \cap DOMAIN b0 |-> b0[j]]
             IN [base EXCEPT !.fails = IF a = b \/ e.conj = "C12.stable" THEN {} ELSE
                     IF e.conj \in {"C11.others", "C13.unchanged", "C15.bytes", "C18.equal"} THEN {e.conj} ELSE {"TOOL.bad_conj"},
                             \* byte-identical re-creation of a released image is more than C12 demands (layout and
